@@ -89,6 +89,8 @@ struct Case {
     full_mut: bool,
     node_seed: [u8; 32],
     warn: Vec<&'static str>,
+    /// permanent channel id handed to setup_channel (None: the channel keeps its initial id only)
+    perm_id: Option<[u8; 32]>,
 }
 
 fn ctype_of(c: u8) -> CommitmentType {
@@ -298,6 +300,9 @@ fn gen_case(seed: u64, idx: usize, tier: &str) -> Case {
     node_seed[1] = 0xc4;
     node_seed[2] = (seed % 251) as u8;
     let full_every = if tier == "quick" { 32 } else { 16 };
+    // every third channel is readied under a permanent id different from its initial id; the keys
+    // stay those of the initial id (read from the stub, before setup_channel)
+    let perm_id = if idx % 3 == 1 { Some(rng.bytes32()) } else { None };
     Case {
         idx,
         kind,
@@ -320,6 +325,7 @@ fn gen_case(seed: u64, idx: usize, tier: &str) -> Case {
         full_mut: idx % full_every < 4 && kind != "refused",
         node_seed,
         warn,
+        perm_id,
     }
 }
 
@@ -355,7 +361,10 @@ fn real_setup(secp: &Secp256k1<All>, c: &Case) -> ChannelSetup {
 struct Live {
     world: World,
     node: Arc<Node>,
+    /// the id the requests are made through (initial or permanent)
     channel_id: ChannelId,
+    id0: ChannelId,
+    perm: Option<ChannelId>,
     holder: ChannelPublicKeys,
 }
 
@@ -366,6 +375,10 @@ impl Live {
         match catch_unwind(AssertUnwindSafe(|| self.world.restart(&id))) {
             Ok(n) => {
                 self.node = n;
+                // after the restart the requests go through the other id of the channel
+                if let Some(p) = &self.perm {
+                    self.channel_id = if self.channel_id == self.id0 { p.clone() } else { self.id0.clone() };
+                }
                 true
             }
             Err(_) => false,
@@ -380,26 +393,40 @@ fn make_live(secp: &Secp256k1<All>, c: &Case) -> Option<Live> {
     let world = World::new(policy, c.node_seed, KeyDerivationStyle::Native);
     let node = world.new_node();
     let peer = pk_of(secp, &[9u8; 32]).serialize();
-    let (channel_id, _) = node.new_channel(1, &peer, &node).ok()?;
+    let (id0, _) = node.new_channel(1, &peer, &node).ok()?;
+    // the channel's own basepoints, as derived for the initial id (the stub's keys)
+    let holder = {
+        let slot = node.get_channel(&id0).ok()?;
+        let g = slot.lock().ok()?;
+        match &*g {
+            lightning_signer::channel::ChannelSlot::Stub(st) => st.keys.pubkeys().clone(),
+            lightning_signer::channel::ChannelSlot::Ready(ch) => ch.keys.pubkeys().clone(),
+        }
+    };
+    let perm = c.perm_id.map(|b| ChannelId::new(&b));
     let setup = real_setup(secp, c);
     let r = catch_unwind(AssertUnwindSafe(|| {
-        node.setup_channel(channel_id.clone(), None, setup, &DerivationPath::master())
+        node.setup_channel(id0.clone(), perm.clone(), setup, &DerivationPath::master())
     }));
     if !matches!(r, Ok(Ok(_))) {
         return None;
     }
     let prev_point = pk_of(secp, &[0x77u8; 32]);
     let n = c.n;
-    let holder = node
-        .with_channel(&channel_id, |chan| {
-            if n > 0 {
-                chan.enforcement_state.set_next_counterparty_commit_num_for_testing(n, prev_point);
-                chan.enforcement_state.set_next_counterparty_revoke_num_for_testing(n - 1);
-            }
-            Ok(chan.keys.pubkeys().clone())
-        })
-        .ok()?;
-    Some(Live { world, node, channel_id, holder })
+    // requests go through the permanent id in every second case that has one
+    let channel_id = match &perm {
+        Some(p) if c.idx % 2 == 0 => p.clone(),
+        _ => id0.clone(),
+    };
+    node.with_channel(&channel_id, |chan| {
+        if n > 0 {
+            chan.enforcement_state.set_next_counterparty_commit_num_for_testing(n, prev_point);
+            chan.enforcement_state.set_next_counterparty_revoke_num_for_testing(n - 1);
+        }
+        Ok(())
+    })
+    .ok()?;
+    Some(Live { world, node, channel_id, id0, perm, holder })
 }
 
 // ------------------------------------------------------------------ independent key derivation (BOLT-3)
@@ -500,6 +527,7 @@ fn case_json(c: &Case) -> serde_json::Value {
         "funding": format!("{}:{}", hexs(&c.txid), c.vout), "holder_delay": c.hdelay, "n": c.n,
         "feerate": c.feerate, "to_holder": c.to_holder, "to_cp": c.to_cp,
         "offered": hs(&c.offered), "received": hs(&c.received), "full_mutation": c.full_mut,
+        "permanent_id": c.perm_id.is_some(),
     })
 }
 
